@@ -323,7 +323,7 @@ def reader_table(facts, f):
     return out
 
 
-@rule("W2", ["C01", "C02", "C13"], floor=6, doc="for every enum-like type with a hand-written tag: variant→literal in the writer and literal→constructed variant "
+@rule("W2", ["C01", "C02", "C13"], floor=5, doc="for every enum-like type with a hand-written tag: variant→literal in the writer and literal→constructed variant "
       "in the reader are inverse partial functions (a swap of two same-shaped variants is invisible to the language check)")
 def w2(facts, tier):
     from .wire_rules import impl_pairs
@@ -453,7 +453,7 @@ def w11(facts, tier):
                 bad.append("bool is not read as `byte == 1`")
         proved = None
         nm = f.get("name") or ""
-        if bad and (key.startswith("savefile::Serializer<") or key.startswith("savefile::Deserializer<")) and nm.split("_", 1)[-1] in bitprov.WIDTH \
+        if (key.startswith("savefile::Serializer<") or key.startswith("savefile::Deserializer<")) and nm.split("_", 1)[-1] in bitprov.WIDTH \
                 and nm.split("_", 1)[-1] not in ("bool", "char"):
             # arithmetic on the value: decide by exact bit provenance whether the composition is the identity
             prim = nm.split("_", 1)[-1]
@@ -466,7 +466,7 @@ def w11(facts, tier):
                     same, bits = be.reader(f, prim)
                     want = [("s", i) for i in range(bitprov.WIDTH[prim])]
                 if same:
-                    bad, proved = [], "composed from narrower pieces; bit provenance proves the identity (every bit of the value is bit i of the little-endian stream)"
+                    bad, proved = [], "bit provenance: every bit i of the value is bit i of the little-endian stream (whatever pieces the body composes it from)"
                 else:
                     bad = [f"bit provenance: {bitprov.describe(bits, want)}"]
             except bitprov.Unknown:
